@@ -26,6 +26,7 @@ NOTES = {
  'C14': ('DESIGN.md 3/C14', 'Ephemeral(Authenticated)OnionService.create on a TorConfig bootstrapped against SimTor; option product chosen by the solver per (version, key kind, clients) partition; ADD_ONION decoded by an independent control-spec 3.27 parser; key custody and DEL_ONION checked on the service object'),
  'C15': ('DESIGN.md 3/C15', 'EphemeralOnionService.create on a TorConfig bootstrapped against SimTor; HS_DESC event sequences (3 quick / 4 thorough) x own/foreign service x directories, ADD_ONION reply position and waiting mode symbolic; three-valued reference; foreign-UPLOADED completion is a listed known finding'),
  'C16': ('DESIGN.md 3/C16', 'documents built from a relay table by a reference builder; first via the real get_info_incremental(ns/all) reply path, later ones as real 650+NEWCONSENSUS events; one relay fully varied per document (presence, nickname, flags, a/w/p lines, bandwidth), a second sharing its nickname; identity codecs on 20-byte ids with one symbolic byte'),
+ 'C17': ('DESIGN.md 3/C17', 'TCPHiddenServiceEndpoint on a recording MemoryReactorClock, real onion-service creation against SimTor; a failure injected at each of 6 steps of listen() (ephemeral services); constructor option table; filesystem-service listen() outside'),
  'C18': ('DESIGN.md 3/C18', '_create_socks_endpoint and TorConfig.create_socks_endpoint against SimTor through the real protocol; existing configuration (0..2 entries of 5 forms) x request (7 kinds) chosen by the solver; SETCONF decoded by the reference kvline grammar; fallback ports with a connect-outcome double'),
  'C20': ('DESIGN.md 3/C20', 'datetime replaced by an int-backed shim validated against timedelta; integer-time task.Clock; TZ=UTC; <=3 steps, 2 names, offsets -10s..3d'),
 }
